@@ -91,7 +91,7 @@ func (dist *DeltaDistribution) SetParameters(parameters Vector) error {
 
 func (obj *DeltaDistribution) ImportConfig(config ConfigDistribution, t ScalarType) error {
 
-  if parameters, ok := config.GetParametersAsFloats(); !ok {
+  if parameters, ok := config.GetParametersAsFloats(); !ok || len(parameters) < 1 {
     return fmt.Errorf("invalid config file")
   } else {
     x := NewScalar(t, parameters[0])
